@@ -151,8 +151,25 @@ def foreign_traces(ctx, art):
         if os.path.exists(tf):
             os.remove(tf)
         saved = list(ctx.broken)
-        common.run_test_harness(ctx, exe, test, lines, timeout=1200, tag="foreign_" + pkg, env={"VERIF_POOLTRACE": tf})
+        fout = common.run_test_harness(ctx, exe, test, lines, timeout=1200, tag="foreign_" + pkg, env={"VERIF_POOLTRACE": tf})
         ctx.broken = saved      # the foreign harness's own verdicts belong to its own property's check
+        if pkg == "c08" and fout and len(fout) == len(lines):
+            # bytes the library kept from a notification (its ETag, for the deregistration request) must be a copy: after the
+            # notification's message was released and recycled they must still be the notification's
+            outs, deregs = c08.split_dereg(fout)
+            start = 0
+            nb = 0
+            while start < len(lines):
+                end = start + 1
+                while end < len(lines) and not lines[end].startswith("cfg") and lines[end] != "end":
+                    end += 1
+                for k, what in c08.etag_violations(lines[start:end], outs[start:end], deregs[start:end])[:1]:
+                    nb += 1
+                    if nb <= 4:
+                        ctx.violations.append(common.Violation("ownership", "C12:c08:kept-bytes-of-a-released-notification",
+                                                               "%s: %s (bytes kept from a received message must be copied before the message is released)" % (lines[start + k], what),
+                                                               {"input": lines[start:start + k + 1] + ["end"], "foreign": "c08"}))
+                start = end if end < len(lines) and lines[end] != "end" else len(lines)
         if not os.path.exists(tf):
             ctx.notes.append("no lifecycle trace from harness %s" % pkg)
             continue
@@ -250,6 +267,18 @@ def replay(ctx, rep):
     if not lines:
         print("replay file names no failing input:", rep.get("no_longer_checks"))
         return 1
+    if rep.get("foreign") == "c08":
+        from . import c08
+        with common.Lock():
+            exe = common.build_test(ctx, "c08")
+        out = common.run_test_harness(ctx, exe, "TestC08", lines, tag="replay")
+        outs, deregs = c08.split_dereg(out or [])
+        bad = c08.etag_violations(lines, outs, deregs)
+        for k, what in bad:
+            print("%s: %s" % (lines[k], what))
+        if bad:
+            print("VIOLATION property=C12 replay=(replayed) still reproduces")
+        return 1 if bad else 0
     if rep.get("race"):
         with common.Lock():
             exe = common.build_test(ctx, "c12race", race=True)
